@@ -214,7 +214,8 @@ def scan(cc_text, port_names, shell_name):
             bad(mat.group(0))
             continue
         facts.append({'k': 'accessor', 'port': port, 'dir': direction.lower(), 'strict': tmat.group(2), 'mc': bool(mcflag),
-                      'itf': fqn_ids(tmat.group(3)), 'target': where})
+                      'itf': fqn_ids(tmat.group(3)), 'target': where,
+                      'rooted': tmat.group(3).startswith('::') and tmat.group(1).startswith('::')})
 
     # FinalConstruct
     final = body_of(cc_text, re.escape(shell_name) + r'::FinalConstruct\(') or ''
